@@ -170,3 +170,61 @@ Proof.
     intros x. unfold dup_module. destruct (negb _); [right; eexists; reflexivity|].
     destruct (negb _); [right|left]; eexists; reflexivity.
 Qed.
+
+(* ---------- the innovation environment relative to a genome (C01 / C03, operator level) ---------- *)
+(* counters bound everything the genome holds; a recorded link innovation number denotes that link
+   wherever the genome carries the number; the two numbers of a recorded node innovation denote
+   the two genes around the recorded node *)
+Record env_ok (e : ienv) (g : genome) : Prop := {
+  eo_innov : forall x, In x (genes g) -> g_innov x <= next_innov e;
+  eo_node : forall n, In n (nodes g) -> n_id n <= next_node e;
+  eo_link : forall i x, In i (innovs e) -> i_type i = 2 -> In x (genes g) -> g_innov x = i_num i ->
+                        link_key x = (i_in i, i_out i, i_rec i);
+  eo_split : forall i x, In i (innovs e) -> i_type i = 1 -> In x (genes g) ->
+                         (g_innov x = i_num i -> g_out x = i_node i) /\
+                         (g_innov x = i_num2 i -> g_in x = i_node i);
+  eo_rec : forall i, In i (innovs e) ->
+                     i_num i <= next_innov e /\
+                     (i_type i = 1 -> i_num i <> i_num2 i /\ i_num2 i <= next_innov e /\ i_node i <= next_node e)
+}.
+
+(* e' extends e: counters only grow and every added record carries numbers issued after e *)
+Record env_extends (e e' : ienv) : Prop := {
+  ee_innov : next_innov e <= next_innov e';
+  ee_node : next_node e <= next_node e';
+  ee_records : exists added, innovs e' = innovs e ++ added /\
+                 forall i, In i added ->
+                           next_innov e < i_num i <= next_innov e' /\
+                           (i_type i = 1 -> next_innov e < i_num2 i <= next_innov e' /\ i_num i <> i_num2 i /\
+                                            next_node e < i_node i <= next_node e')
+}.
+
+Lemma env_extends_refl e : env_extends e e.
+Proof. constructor; try lia. exists []. split; [now rewrite app_nil_r|intros i []]. Qed.
+
+Lemma env_extends_trans a b c : env_extends a b -> env_extends b c -> env_extends a c.
+Proof.
+  intros [Hi1 Hn1 [ad1 [E1 R1]]] [Hi2 Hn2 [ad2 [E2 R2]]]. constructor; try lia.
+  exists (ad1 ++ ad2). split; [now rewrite E2, E1, app_assoc|].
+  intros i Hi. apply in_app_or in Hi. destruct Hi as [Hi|Hi].
+  - destruct (R1 i Hi) as [H1 H2]. split; [lia|]. intros Ht. specialize (H2 Ht). lia.
+  - destruct (R2 i Hi) as [H1 H2]. split; [lia|]. intros Ht. specialize (H2 Ht). lia.
+Qed.
+
+(* a genome that was consistent with the environment stays so when the environment is extended:
+   the new records only speak about numbers the genome cannot hold *)
+Lemma env_ok_extends e e' g : env_ok e g -> env_extends e e' -> env_ok e' g.
+Proof.
+  intros [Hi Hn Hl Hs Hr] [Ei En [added [E R]]]. constructor.
+  - intros x Hx. specialize (Hi x Hx). lia.
+  - intros n Hn'. specialize (Hn n Hn'). lia.
+  - intros i x Hin Ht Hx Hnum. rewrite E in Hin. apply in_app_or in Hin. destruct Hin as [Hin|Hin].
+    + now apply (Hl i x).
+    + destruct (R i Hin) as [Hlt _]. specialize (Hi x Hx). lia.
+  - intros i x Hin Ht Hx. rewrite E in Hin. apply in_app_or in Hin. destruct Hin as [Hin|Hin].
+    + now apply (Hs i x).
+    + destruct (R i Hin) as [Hlt H2]. specialize (H2 Ht). specialize (Hi x Hx). split; intros; lia.
+  - intros i Hin. rewrite E in Hin. apply in_app_or in Hin. destruct Hin as [Hin|Hin].
+    + destruct (Hr i Hin) as [H1 H2]. split; [lia|]. intros Ht. specialize (H2 Ht). lia.
+    + destruct (R i Hin) as [H1 H2]. split; [lia|]. intros Ht. specialize (H2 Ht). lia.
+Qed.
